@@ -320,6 +320,25 @@ var _ = qRandom
 var _ = sort.Strings
 var _ = strings.ToUpper
 
+// Entry is one module driver of the cross-cutting catalogue (also used by C11).
+type Entry struct {
+	Name    string
+	Mk      func() (*mc.Env, mc.Driver)
+	Modules []string
+	TxSeq   bool
+	Quick   int
+	Thorough int
+}
+
+// Catalog lists the module drivers with the modules whose genesis they exercise.
+func Catalog() []Entry {
+	var out []Entry
+	for _, s := range specs() {
+		out = append(out, Entry{Name: s.name, Mk: s.mk, Modules: s.rt.Modules, TxSeq: s.txSeq, Quick: s.q, Thorough: s.t})
+	}
+	return out
+}
+
 const rule = "every newly discovered state of the module driver gets the export -> validate -> import -> export -> query comparison; non-trivial as defined by the module driver"
 
 // Parts of C12.
